@@ -279,15 +279,18 @@ pub(crate) fn lex_between<'a>(
             // with a doublequote but are not closed.
             let is_closed = string_captures.get(2).is_some_and(|m| !m.is_empty());
             if is_closed {
-                // Well-formed string literal.
+                // Well-formed string literal. It may contain
+                // newlines, so it need not end on the line it starts.
+                let (end_line_number, end_column) =
+                    lp.from_offset(offset + string_match.end());
                 tokens.push(Token {
                     position: Position {
                         start_offset: offset,
                         end_offset: offset + string_match.end(),
                         line_number: line_number.as_usize(),
-                        end_line_number: line_number.as_usize(),
+                        end_line_number: end_line_number.as_usize(),
                         column,
-                        end_column: column + string_match.end(),
+                        end_column,
                         path: Rc::clone(&vfs_path.path),
                         vfs_path: vfs_path.clone(),
                     },
